@@ -453,7 +453,6 @@ theorem toMap_fits (k : ProfileKey) (h : k.WF) : Cbor.Fits k.toMap := by
 
 theorem ofMap_toMap (k : ProfileKey) (h : k.WF) : ProfileKey.ofMap k.toMap = some k := by
   obtain ⟨h1, h2, h3, h4, h5, h6⟩ := h
-  have e1 : (ascii "ver" == ascii "ick") = false := by decide
   simp (decide := true) [ProfileKey.ofMap, ProfileKey.toMap, keyField, Cbor.lookup, List.find?, h1, h2, h3, h4, h5, h6]
 
 theorem profileKey_cbor_roundtrip (k : ProfileKey) (h : k.WF) : ProfileKey.ofCbor k.toCbor = some k := by
